@@ -253,6 +253,10 @@ func parseMessage(ctx context.Context, msgDesc *desc.MessageDescriptor, cache co
 					baseId: FieldNumber(id),
 					msg:    t.msg,
 				}
+				// proto3 packs repeated scalars unless the field says [packed = false]
+				if fo := field.GetFieldOptions(); fo != nil && fo.Packed != nil && !fo.GetPacked() {
+					t.unpacked = true
+				}
 			}
 			fieldDesc.typ = t
 		}
